@@ -104,7 +104,7 @@ def main():
         del args[i : i + 2]
     props = args or ["C%02d" % i for i in range(1, 21)]
     res = run(sd, props, tier)
-    out = os.path.join(sd, "detection_%s.json" % tier)
+    out = os.path.join(sd, "detection_%s%s.json" % (tier, os.environ.get("SEEDED_OUT_SUFFIX", "")))
     if os.path.exists(out) and args:
         # a partial run updates the entries of the checks that were run
         try:
